@@ -217,7 +217,7 @@ def split_seqs(ops, *cols):
 
 
 def strip_for_spec(line):
-    return line.split(" | cbs=")[0]
+    return line.split(" || ")[0].split(" | cbs=")[0]
 
 
 def run_driver(ops_path, out_path, spec=False):
@@ -290,7 +290,7 @@ def write_replay(run, name, payload):
     return path
 
 
-def seq_correspondence(run, harness, mode, label, args, corpus_files=()):
+def seq_correspondence(run, harness, mode, label, args, corpus_files=(), overlay="clock"):
     """model <-> implementation on generated sequences (plus corpus), with spec <-> implementation as the
     search for a real violation.  Returns True when everything agreed."""
     d = os.path.join(run.work, label)
@@ -335,13 +335,22 @@ def seq_correspondence(run, harness, mode, label, args, corpus_files=()):
             lines = [r[0] for r in seqs[si][:oi + 1]]
             small = shrink(run, harness, mode, lines, extra, cmpf)
             im, mo, sp = replay_seq(run, harness, mode, small, extra)
+            # first line that still differs in the final replay (black-box runs use the real, per-process
+            # random hash seed, so a layout-dependent failure may move between replays)
+            idx = len(small) - 1
+            for j in range(len(small)):
+                a, b, c = im[j] if j < len(im) else "", mo[j] if j < len(mo) else "", sp[j] if j < len(sp) else ""
+                if (kind == "spec" and not spec_ok(a, c)) or (kind == "model" and a != b):
+                    idx = j
+                    break
+            small, im, mo, sp = small[:idx + 1], im[:idx + 1], mo[:idx + 1], sp[:idx + 1]
             last = small[-1].split()[0]
             found = kind == "spec"
             sig = "%s:%s:%s" % (label, kind, last)
             payload = {"kind": "sequential-differential", "what": {
                 "spec": "the real code contradicts the property's reference semantics (Spec) on this call sequence",
                 "model": "hand-written model and real code disagree (correspondence broken) and no call sequence was found on which the real code contradicts the reference semantics"}[kind],
-                "mode": mode, "args": extra, "ops": small, "impl": im, "model": mo, "spec": sp,
+                "mode": mode, "overlay": overlay, "args": extra, "ops": small, "impl": im, "model": mo, "spec": sp,
                 "replay_cmd": "./check %s --replay <this file>" % run.pid}
             path = write_replay(run, "%s_%s_%s" % (label, kind, last), payload)
             run.violations.append((sig, path, found, "%s op=%s impl=%r model=%r spec=%r" % (kind, small[-1], im[-1], mo[-1], sp[-1])))
